@@ -504,6 +504,31 @@ def is_member(l, e):
     return any(x == e for x in l)
 
 
+def registered_check(ex, case):
+    """what build() registered with the dynamics must be what was asked for: a scripted process' own probability / rate list, and for a
+    shipped model every transition parameter handed to the run (own decorated name, else the shared name). The model's tables are read off
+    the registered events, so this is the one place where the registered numbers meet the configured ones."""
+    SHORT = ('pInfect', 'pRemove', 'pRecover', 'pResuscept', 'pAffect', 'pStifle', 'pInfectSymptomatic', 'pInfectAsymptomatic', 'pSymptoms')
+    for p in ex.leaves:
+        if isinstance(p, ScriptProc):
+            want = [float(x[1]) for x in p.spec['perel']]; got = [float(pr) for (l, pr, f, nm) in p._perElementEvents]
+            if want != got: return f"per-element events were registered with probabilities {got}, the process asked for {want}"
+            want = [float(x[1]) for x in p.spec['fixed']]; got = [float(pr) for (l, pr, f, nm) in p._perLocusEvents]
+            if want != got: return f"fixed-rate events were registered with rates {got}, the process asked for {want}"
+    merged = case['params']
+    for pj, p in zip(case.get('procs_json', []), ex.leaves):
+        if pj.get('cls') == 'Script' or not isinstance(p, CompartmentedModel) or type(p).__name__ == 'SIR_VariableInfection': continue
+        regs = [float(pr) for (l, pr, f, nm) in p._perElementEvents + p._perLocusEvents]
+        nm_ = p.instanceName()
+        for k in pj.get('params', {}):
+            kb = k.split('@')[0]
+            if kb.split('.')[-1] not in SHORT: continue
+            val = merged.get(f"{kb}@{nm_}", merged.get(kb)) if nm_ is not None else merged.get(kb)
+            if isinstance(val, (int, float)) and float(val) not in regs:
+                return f"{type(p).__name__}: parameter {kb} = {val}, registered probabilities / rates are {regs}"
+    return None
+
+
 def fresh_twin(case, values, snap):
     """C10: the state of every object of the experiment at the start of the run must equal that of a brand-new experiment given the same
     network, parameters and random numbers"""
@@ -821,6 +846,8 @@ def run_case(case):
                 p.perElementEventDistribution = dist
             p._perElementEvents = [(l, pr, wrap(f, locus=l), nm) for (l, pr, f, nm) in p._perElementEvents]
             p._perLocusEvents = [(l, pr, wrap(f, locus=l), nm) for (l, pr, f, nm) in p._perLocusEvents]
+        r_ = registered_check(ex, case)
+        if r_: info['oracle'].append(('registered', r_))
         cfg = [f"NINST {len(ex.cms)} " + ' '.join('1' if p.instanceName() is not None else '0' for p in ex.cms)]
         for l in ex.loci: cfg.append(ex.locus_line(l))
         for p in ex.cms:
